@@ -418,11 +418,14 @@ def check_property(prop, tier='quick', only=None, jobs=None, verbose=False, seed
     # ------------------------------------------------------------ report
     lines = []
     seen_k = set()
+    by_entry = {}
     for oname, kf in known_hits:
-        if oname in seen_k:
-            continue
-        seen_k.add(oname)
-        lines.append('KNOWN-FINDING: property=%s %s [%s]' % (prop, kf.get('what', ''), oname))
+        by_entry.setdefault(kf.get('obligation', oname), (kf, []))[1].append(oname)
+    for _key, (kf, onames) in by_entry.items():
+        # one line per listed finding (the obligations that hit it follow in brackets)
+        uniq = sorted(set(onames))
+        seen_k.update(uniq)
+        lines.append('KNOWN-FINDING: property=%s %s [%s]' % (prop, kf.get('what', ''), '; '.join(uniq)))
     seen_v = set()
     for oname, o, reproduced in violations:
         if oname in seen_v:
